@@ -225,3 +225,12 @@ pub fn get_insertion_index(position: &Position, text: &str) -> usize {
     }
     text.len()
 }
+
+/// Verification hook: exposes the private change conversion to the correspondence harness.
+#[cfg(feature = "verif")]
+pub fn verif_to_text_changes(
+    changes: Vec<TextDocumentContentChangeEvent>,
+    text: String,
+) -> Vec<TextChange> {
+    to_text_changes(changes, text)
+}
